@@ -4,6 +4,30 @@ import json
 CHECKS = {
  "C01": ("E1", "compile-in-the-loop differential PBT (proptest tapes): generated schema x operation x options programs are compiled and every model-executed conforming payload must deserialize and re-serialize to the same JSON up to the stated equivalence",
          "reference model (mini executor) differential + round trip", "2.4, 3/C01"),
+ "C02": ("E1", "generated (schema, document, options) x delivery {library, derive, CLI} x consumer {serde, graphql_client only}: generation must succeed and rustc must accept; syn def/use closure pre-filter over 10-20x more cases, flagged cases compiled",
+         "PBT with rustc as oracle + syn def/use closure", "2.4, 3/C02"),
+ "C03": ("E1", "every single-point corruption (null/missing at non-null, wrong scalar kind, non-list for list, unknown/swapped __typename) of model-generated conforming payloads against compiled ResponseData types",
+         "PBT: reference model of single-point corruptions (fault injection on inputs)", "3/C03"),
+ "C04": ("E1", "variable assignments from an input-coercion model deserialized into compiled Variables and serialized through build_query; compared with the model's expected wire object with/without skip_serializing_none",
+         "PBT: input-coercion reference model + round trip", "3/C04"),
+ "C05": ("E1+E2", "compiled modules must expose the byte-exact document and operation name and a body with exactly variables/query/operationName; in-process selection scenarios (mode x struct/operation name x normalization) checked on parsed tokens",
+         "PBT: byte equality with source text + selection model", "3/C05"),
+ "C09": ("E1", "the same vectors (payloads, corruptions, assignments) run against a baseline and 2 random wire-neutral option variants of each generated program; outcome class and Ok JSON must be identical",
+         "metamorphic PBT (option change => identical wire results)", "3/C09"),
+ "C10": ("E1", "for every generated enum: schema values, near misses, empty, non-ASCII, long and random strings round-trip; schema values map to distinct non-Other variants, everything else to Other(s); non-strings rejected",
+         "PBT: identity on strings + variant bijection", "3/C10"),
+ "C11": ("E1", "exhaustive product keyword x position x normalization (and case style x position x normalization), one compiled program per point: must build and the wire key/string is the exact GraphQL name",
+         "exhaustive enumeration with rustc + round trip oracle", "3/C11"),
+ "C12": ("E2+E1", "all input-type graphs on <= 2 types x edge kinds x @oneOf flags (exhaustive) and random 3-4 type graphs analysed with syn for unboxed cycles; flagged + sampled graphs and recursive fragment patterns compiled and round-tripped",
+         "exhaustive enumeration + PBT, syn cycle analysis confirmed by rustc (E0072)", "3/C12"),
+ "C14": ("E2+E1", "tokens under allow/warn/deny/unset compared structurally (syn) against a deprecation model: warn = allow + #[deprecated(note)] on exactly the deprecated selected fields, deny = allow minus exactly those; compiled deny programs still accept full payloads",
+         "differential PBT across strategies vs deprecation model", "3/C14"),
+ "C15": ("E4", "abstract response bodies from the spec grammar rendered to JSON (with unknown members) must deserialize to the directly constructed expected Response<T>; round trip of arbitrary values; Display against a reference implementation",
+         "in-process PBT: constructed expected value, round trip, reference Display", "3/C15"),
+ "C18": ("E2", "attribute texts rendered from abstract option values (any order, spacing, literal style, surrounding attributes, visibility) parsed with syn and run through the working-tree derive source: resolved paths, option getters and generated tokens must equal the library called with the same options",
+         "round-trip PBT options -> attribute text -> options; token equality", "3/C18"),
+ "C20": ("E3", "the CLI binary runs against a scripted loopback mock server: request model (query file by flags, operationName, headers, bearer), output equals served JSON and generates the same code as the SDL, every failure path leaves an existing output file untouched",
+         "PBT over flags x fault scripts (fault injection) with request model", "3/C20"),
 }
 NOT_YET = {}
 def main():
